@@ -1,4 +1,5 @@
 //! C18 — changing the minimum alignment keeps the position aligned and data intact.
+use crate::check;
 use crate::common::*;
 use bump_scope::alloc::Allocator;
 use bump_scope::settings::{BumpAllocatorSettings, BumpSettings};
@@ -38,7 +39,7 @@ where
     let ib: usize = kani::any();
     kani::assume(lb.size() > 0 && ib < lb.size());
     unsafe { w1.write(addr(b) + ib, vb) };
-    assert!(addr(bump.stats().current_chunk().unwrap().bump_position()) % M == 0, "C18/C10: position not a multiple of the outer minimum alignment before entry");
+    check!(addr(bump.stats().current_chunk().unwrap().bump_position()) % M == 0, "C18/C10: position not a multiple of the outer minimum alignment before entry");
 
     // with budget the first inner request is concrete and cannot fit in the 16-byte chunk (chunk switch certain)
     let l1 = if inner_budget == 1 { core::alloc::Layout::from_size_align(20, 4).unwrap() } else { any_layout(8, 3) };
@@ -46,62 +47,62 @@ where
     set_budget(inner_budget);
     let dealloc_b: bool = kani::any();
     let (i1, i2) = bump.aligned::<N, _>(|s| {
-        assert!(pos(s) % N == 0, "C18: position not a multiple of N at entry of aligned::<N>");
+        check!(pos(s) % N == 0, "C18: position not a multiple of N at entry of aligned::<N>");
         if dealloc_b {
             // give back the newest block while the inner alignment is in force
             unsafe { s.deallocate(b, lb) };
-            assert!(pos(s) % N == 0, "C18: position not a multiple of N after a deallocation inside aligned::<N>");
+            check!(pos(s) % N == 0, "C18: position not a multiple of N after a deallocation inside aligned::<N>");
         }
         let a1 = s.allocate(l1);
-        assert!(pos(s) % N == 0, "C18: position not a multiple of N after an allocation inside aligned::<N>");
+        check!(pos(s) % N == 0, "C18: position not a multiple of N after an allocation inside aligned::<N>");
         let a2 = s.allocate(l2);
-        assert!(pos(s) % N == 0, "C18: position not a multiple of N after the second allocation inside aligned::<N>");
+        check!(pos(s) % N == 0, "C18: position not a multiple of N after the second allocation inside aligned::<N>");
         kani::cover!(s.stats().count() == 2, "[b1] chunk switch while the inner alignment is in force");
         (a1.map(|p| addr(p.cast())).unwrap_or(0), a2.map(|p| addr(p.cast())).unwrap_or(0))
     });
     set_budget(0);
     kani::cover!(i1 != 0 && i2 != 0, "[room] both inner allocations succeeded");
-    assert!(addr(bump.stats().current_chunk().unwrap().bump_position()) % M == 0, "C18: position not a multiple of the outer minimum alignment after aligned returned");
+    check!(addr(bump.stats().current_chunk().unwrap().bump_position()) % M == 0, "C18: position not a multiple of the outer minimum alignment after aligned returned");
     // blocks before / inside / after stay disjoint; the block allocated before is intact
     let l3 = any_layout(8, 3);
     let after = bump.allocate(l3).map(|p| addr(p.cast())).unwrap_or(0);
     kani::cover!(dealloc_b && i1 != 0, "allocated after a deallocation inside the region");
     // the block that stayed live is never overlapped and keeps its contents
     if i1 != 0 {
-        assert!(disjoint(i1, l1.size(), addr(a0), la0.size()), "C18/C01: inner block overlaps a live block allocated before the region");
+        check!(disjoint(i1, l1.size(), addr(a0), la0.size()), "C18/C01: inner block overlaps a live block allocated before the region");
     }
     if i2 != 0 {
-        assert!(disjoint(i2, l2.size(), addr(a0), la0.size()), "C18/C01: inner block overlaps a live block allocated before the region");
+        check!(disjoint(i2, l2.size(), addr(a0), la0.size()), "C18/C01: inner block overlaps a live block allocated before the region");
     }
     if after != 0 {
-        assert!(disjoint(after, l3.size(), addr(a0), la0.size()), "C18/C01: block allocated after overlaps a live block allocated before the region");
+        check!(disjoint(after, l3.size(), addr(a0), la0.size()), "C18/C01: block allocated after overlaps a live block allocated before the region");
     }
     if la0.size() > 0 {
-        assert!(unsafe { w1.read(addr(a0)) } == va0, "C18: data of a live block allocated before the region changed");
+        check!(unsafe { w1.read(addr(a0)) } == va0, "C18: data of a live block allocated before the region changed");
     }
     if dealloc_b {
             kani::cover!(true, "END: harness ran to completion");
         return;
     }
     if i1 != 0 {
-        assert!(i1 % l1.align() == 0, "C18/C01: inner block misaligned");
-        assert!(disjoint(i1, l1.size(), addr(b), lb.size()), "C18: inner block overlaps the block allocated before");
+        check!(i1 % l1.align() == 0, "C18/C01: inner block misaligned");
+        check!(disjoint(i1, l1.size(), addr(b), lb.size()), "C18: inner block overlaps the block allocated before");
         if i2 != 0 {
-            assert!(disjoint(i1, l1.size(), i2, l2.size()), "C18: inner blocks overlap");
+            check!(disjoint(i1, l1.size(), i2, l2.size()), "C18: inner blocks overlap");
         }
         if after != 0 {
-            assert!(disjoint(i1, l1.size(), after, l3.size()), "C18: block allocated after overlaps an inner block");
+            check!(disjoint(i1, l1.size(), after, l3.size()), "C18: block allocated after overlaps an inner block");
         }
     }
     if i2 != 0 && after != 0 {
-        assert!(disjoint(i2, l2.size(), after, l3.size()), "C18: block allocated after overlaps an inner block");
+        check!(disjoint(i2, l2.size(), after, l3.size()), "C18: block allocated after overlaps an inner block");
     }
     if after != 0 {
         kani::cover!(true, "allocated after the region");
-        assert!(after % l3.align() == 0, "C18/C01: block after the region misaligned");
-        assert!(disjoint(after, l3.size(), addr(b), lb.size()), "C18: block allocated after overlaps the block allocated before");
+        check!(after % l3.align() == 0, "C18/C01: block after the region misaligned");
+        check!(disjoint(after, l3.size(), addr(b), lb.size()), "C18: block allocated after overlaps the block allocated before");
     }
-    assert!(unsafe { w1.read(addr(b) + ib) } == vb, "C18: data allocated before the region changed");
+    check!(unsafe { w1.read(addr(b) + ib) } == vb, "C18: data allocated before the region changed");
     kani::cover!(true, "END: harness ran to completion");
 }
 
@@ -144,13 +145,13 @@ fn settings_raise_alignment() {
         let which: bool = kani::any();
         if which {
             let b8: &mut Bump<VA, S<8, true>> = bump.borrow_mut_with_settings();
-            assert!(addr(b8.stats().current_chunk().unwrap().bump_position()) % 8 == 0, "C18: position not aligned after borrow_mut_with_settings");
+            check!(addr(b8.stats().current_chunk().unwrap().bump_position()) % 8 == 0, "C18: position not aligned after borrow_mut_with_settings");
             let _ = b8.allocate(any_layout(3, 0));
-            assert!(addr(b8.stats().current_chunk().unwrap().bump_position()) % 8 == 0, "C18: position not aligned after an allocation with the raised alignment");
+            check!(addr(b8.stats().current_chunk().unwrap().bump_position()) % 8 == 0, "C18: position not aligned after an allocation with the raised alignment");
             kani::cover!(l.size() == 3, "raised from a misaligned position");
                 } else {
             let b16: Bump<VA, S<16, true>> = core::mem::ManuallyDrop::into_inner(bump).with_settings();
-            assert!(addr(b16.stats().current_chunk().unwrap().bump_position()) % 16 == 0, "C18: position not aligned after with_settings");
+            check!(addr(b16.stats().current_chunk().unwrap().bump_position()) % 16 == 0, "C18: position not aligned after with_settings");
             core::mem::forget(b16);
         }
     } else {
@@ -160,7 +161,7 @@ fn settings_raise_alignment() {
         set_budget(0);
         let _ = bump.allocate(any_layout(7, 0));
         let b8: &mut Bump<VA, S<8, false>> = bump.borrow_mut_with_settings();
-        assert!(addr(b8.stats().current_chunk().unwrap().bump_position()) % 8 == 0, "C18: position not aligned after borrow_mut_with_settings (down)");
+        check!(addr(b8.stats().current_chunk().unwrap().bump_position()) % 8 == 0, "C18: position not aligned after borrow_mut_with_settings (down)");
         }
     kani::cover!(true, "END: harness ran to completion");
 }
@@ -207,7 +208,7 @@ fn nopanic_with_settings_ok() {
     let mut bump = core::mem::ManuallyDrop::new(bump);
     set_budget(0);
     let b: Bump<VA, S<4, true, true>> = core::mem::ManuallyDrop::into_inner(bump).with_settings();
-    assert!(addr(b.stats().current_chunk().unwrap().bump_position()) % 4 == 0, "C18: position not aligned after with_settings");
+    check!(addr(b.stats().current_chunk().unwrap().bump_position()) % 4 == 0, "C18: position not aligned after with_settings");
     let b2: Bump<VA, BumpSettings<4, true, true, false, true, true, 1>> = b.with_settings();
     core::mem::forget(b2);
     kani::cover!(true, "END: harness ran to completion");
